@@ -247,6 +247,24 @@ def check_case(case, ctx):
         if br:
             ctx.violation(br[0][0], br[0][1], case)
             return
+    if neg is None and not par.get("bulk") and not par["xorenc"] and case.get("then_corrupt", par["seed"] % 3 == 0):
+        # history: the very same protected area again, in the same process, but with another checksum stored in its guard
+        # configuration - what was learnt from the intact payload must not vouch for this one
+        ctx.mon("negative.no_config")
+        par2 = dict(par, neg="checksum", delta=[1, -1, 1000][par["seed"] % 3], decoy=None)
+        payload2, _, _, _, _ = build_payload(None, par2)
+        try:
+            c2_ = beacon.BeaconConfig.from_bytes(payload2)
+        except ValueError:
+            c2_ = None
+        except Exception as e:  # noqa: BLE001
+            ctx.violation("extract.exception", f"after the intact payload: {type(e).__name__}: {e}", case)
+            return
+        plainish = par["keykind"] in ("lead7", "constant", "headerlike") or par["keykind"].startswith("straddle") or par.get("guardlook")
+        if c2_ is not None and not plainish:
+            ctx.violation("negative.no_config", f"the same area with a wrong stored checksum, analysed right after the intact payload, produced a configuration "
+                          f"(guardrails={'set' if c2_.guardrails else None})", case)
+            return
     ctx.ok(fp=payload, case={"par": {k: v for k, v in par.items()}, "payload_len": len(payload)}, classes=(
         f"neg:{neg}", f"keylen:{'2-8' if len(par['envkey']) <= 8 else '9-64' if len(par['envkey']) <= 64 else '65-256'}",
         f"opts:{'+'.join(map(str, par['opts']))}", f"container:{par['container']}", f"xorenc:{par['xorenc']}", f"keykind:{par['keykind'].split(':')[0]}", f"decoy:{par.get('decoy')}",
